@@ -449,3 +449,138 @@ func accumulatorsKept(c *Ctx, r *Report, rule string, scope func(*Fn) bool, floo
 	}
 	r.Floor(rule, "accumulators in scope", n, floor)
 }
+
+// appendCollects: the slice variable v of fn is an element-wise image of a source list built by appending:
+// v starts empty (make with length 0, an empty literal, or a bare declaration), its only other definition is
+// `v = append(v, x)` inside a range loop over the source, x is computed from that loop's element, the append
+// runs for every element (only a failing return leaves the loop early), and v is handed to nothing else that
+// could reorder it. isSrc recognises the source expression (after single-definition locals are resolved).
+func appendCollects(p *Prog, fn *Fn, v types.Object, isSrc func(ast.Expr) bool) (bool, string) {
+	if v == nil {
+		return false, "no variable"
+	}
+	var appendStmt *ast.AssignStmt
+	nEmpty, nOther := 0, 0
+	bad := ""
+	ast.Inspect(fn.Body, func(m ast.Node) bool {
+		switch x := m.(type) {
+		case *ast.AssignStmt:
+			for i, l := range x.Lhs {
+				if ie, ok := ast.Unparen(l).(*ast.IndexExpr); ok {
+					if id, ok := ast.Unparen(ie.X).(*ast.Ident); ok && p.ObjOf(fn, id) == v {
+						bad = "an element of the list is stored by position at " + p.Pos(x.Pos())
+					}
+				}
+				id, ok := ast.Unparen(l).(*ast.Ident)
+				if !ok || p.ObjOf(fn, id) != v {
+					continue
+				}
+				if len(x.Lhs) != len(x.Rhs) {
+					nOther++
+					continue
+				}
+				rh := ast.Unparen(x.Rhs[i])
+				if emptySliceExpr(p, fn, rh) {
+					nEmpty++
+					continue
+				}
+				if call, ok := rh.(*ast.CallExpr); ok && p.Builtin(fn, call) == "append" && len(call.Args) == 2 && !call.Ellipsis.IsValid() {
+					if a0, ok := ast.Unparen(call.Args[0]).(*ast.Ident); ok && p.ObjOf(fn, a0) == v && appendStmt == nil {
+						appendStmt = x
+						continue
+					}
+				}
+				nOther++
+			}
+		case *ast.ValueSpec:
+			for i, nm := range x.Names {
+				if p.ObjOf(fn, nm) == v {
+					if len(x.Values) == 0 || (i < len(x.Values) && emptySliceExpr(p, fn, x.Values[i])) {
+						nEmpty++
+					} else {
+						nOther++
+					}
+				}
+			}
+		case *ast.CallExpr:
+			if b := p.Builtin(fn, x); b == "append" || b == "len" || b == "cap" {
+				return true
+			}
+			for _, a := range x.Args {
+				if id, ok := ast.Unparen(a).(*ast.Ident); ok && p.ObjOf(fn, id) == v {
+					bad = "the list is handed to " + types.ExprString(x.Fun) + " at " + p.Pos(x.Pos())
+				}
+			}
+		}
+		return true
+	})
+	switch {
+	case bad != "":
+		return false, bad
+	case appendStmt == nil || nEmpty != 1 || nOther != 0:
+		return false, "the list is not built by one append onto an empty list"
+	}
+	loops := enclosingLoops(p, fn, appendStmt)
+	if len(loops) == 0 {
+		return false, "the append is not inside a loop"
+	}
+	rs, ok := loops[0].(*ast.RangeStmt)
+	if !ok {
+		return false, "the append is not inside a range loop"
+	}
+	over := ast.Unparen(rs.X)
+	if id, ok := over.(*ast.Ident); ok {
+		if d := p.SoleDef(fn, p.ObjOf(fn, id)); d != nil {
+			over = ast.Unparen(d)
+		}
+	}
+	if !isSrc(over) {
+		return false, "the loop does not run over the source list (`" + types.ExprString(rs.X) + "`)"
+	}
+	elem, _ := rs.Value.(*ast.Ident)
+	if elem == nil {
+		return false, "the loop has no element variable"
+	}
+	eo := p.ObjOf(fn, elem)
+	mentions := func(e ast.Expr) bool {
+		found := false
+		ast.Inspect(e, func(m ast.Node) bool {
+			if id, ok := m.(*ast.Ident); ok && p.ObjOf(fn, id) == eo {
+				found = true
+			}
+			return true
+		})
+		return found
+	}
+	x := appendStmt.Rhs[0].(*ast.CallExpr).Args[1]
+	fromElem := mentions(x)
+	if id, ok := ast.Unparen(x).(*ast.Ident); ok && !fromElem {
+		xo := p.ObjOf(fn, id)
+		ndef := 0
+		walkNoLit(rs.Body, func(m ast.Node) bool {
+			if as, ok := m.(*ast.AssignStmt); ok {
+				for _, l := range as.Lhs {
+					if lid, ok := ast.Unparen(l).(*ast.Ident); ok && p.ObjOf(fn, lid) == xo {
+						ndef++
+						for _, rh := range as.Rhs {
+							if mentions(rh) {
+								fromElem = true
+							}
+						}
+					}
+				}
+			}
+			return true
+		})
+		if ndef != 1 {
+			fromElem = false
+		}
+	}
+	if !fromElem {
+		return false, "the appended value is not computed from the loop's element"
+	}
+	if ok, why := loopComplete(p, fn, appendStmt, 1, false, true); !ok {
+		return false, why
+	}
+	return true, ""
+}
